@@ -104,10 +104,12 @@ class switch_latest:
         return s.term
 
     def on_next(s, out, inner):
-        if s.n > 0:
-            out.dispose_previous()  # the previous inner is unsubscribed before the new one is subscribed
+        # the new inner IS the latest one from the moment it arrives: releasing the previous inner runs foreign code (dispose actions)
+        # that may push the next inner into the operator - which then must be newer than this one
         s.n += 1
         s.has_latest = True
+        if s.n > 1:
+            out.dispose_previous()  # the previous inner is unsubscribed before the new one is subscribed
         out.subscribe(inner)
 
     def on_error(s, out, e):
